@@ -6,6 +6,7 @@ C05 - A rejected indexer call changes nothing; the block protocol is enforced.
 -/
 import Brc20.Model.Node
 import Brc20.Proofs.Node
+import Brc20.Proofs.ReachProps
 
 namespace Brc20
 open Node
@@ -160,5 +161,129 @@ theorem C05.rejected_removable (f : Node → Node × Class) (n : Node) (e : Stri
 example : ({ lbi := { waiting := 1, ts := 5, hash := "aa" } } : Node).addTxs 5 "aa" 0 none [] none
     = ({ lbi := { waiting := 1, ts := 5, hash := "aa" } }, .err "idx") := by
   simp [addTxs, validateNextTx]
+
+/-! ### `brc20_mine`: an error answer means nothing was mined
+
+`mine` refuses while a block is under construction, then when one of the hashes / numbers of the blocks it is about
+to create is in use (`mineClash`), then finalises the blocks one by one (`mineLoop`). The theorem says that the loop
+cannot answer an error once the two pre-checks have passed, so that an error answer always leaves the node as it
+was. It holds for every node (reachable or not) and every list of recorded events; the only condition is that the
+block numbers of the call fit in 32 bytes (they are `u64`), so that the hashes generated for different blocks of the
+call differ.
+
+The model's `finaliseOne` used to accept a finalise that recorded additional `block_hash_to_number` rows, and the
+statement then needed the side condition `Node.MineHashDiscipline` on the recorded events (an additional row keyed by
+the hash the next block is going to get made the second finalise answer `err "exists"` after the first block had been
+finalised). The engine's finalise writes exactly one hash-index row, keyed by the hash of the block being finalised
+(`set_block_hash`), and the model now refuses anything else (`finOnly`, reject `fin-wrote`): the event list that was
+the counterexample is rejected (example below) and the side condition is gone. -/
+
+/-- **A refused `mine` changes nothing**: for every node and every list of recorded events, if `mine` answers an
+error then the node is unchanged. -/
+theorem C05.mine_error_noop (n : Node) (count ts : Nat) (evs : List Ev) (hfit : n.nextHeight + count < 16 ^ 64)
+    (e : String) (he : (n.mine count ts evs).2 = .err e) : (n.mine count ts evs).1 = n :=
+  mine_err_noop_fit hfit he
+
+/-- the same with the bound of the implementation: block numbers are `u64` -/
+theorem C05.mine_error_noop_u64 (n : Node) (count ts : Nat) (evs : List Ev) (hfit : n.nextHeight + count ≤ 2 ^ 64)
+    (e : String) (he : (n.mine count ts evs).2 = .err e) : (n.mine count ts evs).1 = n :=
+  mine_err_noop_fit (Nat.lt_of_le_of_lt hfit (by decide)) he
+
+/-- the loop itself: after the pre-checks, `mineLoop` answers `ok`, or stops on a panic / a model reject -/
+theorem C05.mineLoop_never_errs_fit (n : Node) (count ts : Nat) (evs : List Ev) (hw : n.lbi.waiting = 0)
+    (hc : n.mineClash count = false) (hfit : n.nextHeight + count < 16 ^ 64) (e : String) :
+    (mineLoop n ts evs count).2 ≠ .err e :=
+  mineLoop_not_err_fit ts evs count (n.nextHeight + count) rfl hw (mineClash_false hc) hfit e
+
+/-- The earlier, conditional form (still true; without the arithmetic condition): under `Node.MineHashDiscipline` -
+no recorded `block_hash_to_number` write of a block of the call is keyed by the hash generated for a later block of
+the same call - an error answer of `mine` leaves the node unchanged. -/
+theorem C05.mine_error_noop_disciplined (n : Node) (count ts : Nat) (evs : List Ev) (hd : MineHashDiscipline n count evs)
+    (e : String) (he : (n.mine count ts evs).2 = .err e) : (n.mine count ts evs).1 = n :=
+  mine_err_noop hd he
+
+/-- the loop itself: after the pre-checks, `mineLoop` answers `ok`, or stops on a panic / a model reject -/
+theorem C05.mineLoop_never_errs (n : Node) (count ts : Nat) (evs : List Ev) (hw : n.lbi.waiting = 0)
+    (hc : n.mineClash count = false) (hd : MineHashDiscipline n count evs) (e : String) :
+    (mineLoop n ts evs count).2 ≠ .err e :=
+  mineLoop_not_err ts evs count (n.nextHeight + count) rfl hw (mineClash_false hc) hd e
+
+/-- mining a single block needs no condition at all -/
+theorem C05.mine_one_error_noop (n : Node) (count ts : Nat) (evs : List Ev) (hc : count ≤ 1)
+    (e : String) (he : (n.mine count ts evs).2 = .err e) : (n.mine count ts evs).1 = n := by
+  apply mine_err_noop _ he
+  intro st k v j _ h1 h2 h3
+  omega
+
+/-- the form with the recorded hash-index writes keyed by their own block's generated hash (its first hypothesis is
+no longer needed: `C05.mine_error_noop`) -/
+theorem C05.mine_error_noop_own_hash (n : Node) (count ts : Nat) (evs : List Ev)
+    (hown : ∀ st k v, Ev.s TId.hashToNumber.name st k v ∈ evs → k = generatedHash st)
+    (hfit : n.nextHeight + count < 16 ^ 64)
+    (e : String) (he : (n.mine count ts evs).2 = .err e) : (n.mine count ts evs).1 = n :=
+  mine_err_noop (mineHashDiscipline_of_own_hash hown hfit) he
+
+namespace C05.Example
+open Node.Example
+
+/-- two blocks mined on the empty node; the recorded writes of block 0 contain, besides the rows of block 0, a
+hash-index row keyed by the hash block 1 is going to get -/
+def evBad : List Ev :=
+  [ .s "block_number_to_block" 0 "0000000000000000" (some "b0"),
+    .s "block_number_to_raw_block" 0 "0000000000000000" (some "r0"),
+    .s "block_number_to_hash" 0 "0000000000000000" (some h0),
+    .s "block_hash_to_number" 0 h0 (some (hexN 16 0)),
+    .s "block_hash_to_number" 0 h1 (some "ff") ]
+
+/-- **The former counterexample is now rejected by the model.** This event list violates `MineHashDiscipline`; the
+model used to finalise block 0 and then answer `err "exists"` on block 1 (an error answer and a changed node). The
+finalise of block 0 is now refused as not fitting the engine (`fin-wrote`: a hash-index row keyed by a hash other
+than the block's), nothing is finalised, and no error is answered. -/
+example : (({} : Node).mine 2 300 evBad).2 = .reject "fin-wrote" ∧ ({} : Node).mineClash 2 = false ∧
+    (({} : Node).mine 2 300 evBad).1.nextHeight = 0 ∧ ({} : Node).nextHeight = 0 ∧
+    ¬ MineHashDiscipline {} 2 evBad := by
+  refine ⟨by decide, by decide, by decide, by decide, ?_⟩
+  intro h
+  exact h 0 h1 (some "ff") 1 (by simp [evBad, TId.name]) (by decide) (by decide) (by decide) rfl
+
+/-- without the extra row the same writes are accepted: block 0 is mined -/
+example : (({} : Node).mine 1 300 (evBad.take 4)).2 = .ok ∧ (({} : Node).mine 1 300 (evBad.take 4)).1.nextHeight = 1 := by
+  decide
+
+/-- block 3 submitted with an explicit hash: the one `mine` would generate for block 5 -/
+def evFin3 : List Ev :=
+  [ .s "block_number_to_block" 3 "0000000000000003" (some "b3"),
+    .s "block_number_to_raw_block" 3 "0000000000000003" (some "r3"),
+    .s "block_number_to_hash" 3 "0000000000000003" (some (generatedHash 5)),
+    .s "block_hash_to_number" 3 (generatedHash 5) (some (hexN 16 3)) ]
+
+def opsClash : List Op := ops ++ [.finaliseOne 350 (generatedHash 5) 0 evFin3]
+
+def clash : Node × Ghost := runOps opsClash ({}, Ghost.init)
+
+theorem clash_reach : ReachG clash.1 clash.2 := reachG_runOps opsClash ReachG.init (by decide) (by decide)
+
+/-- the writes a `mine 2` would record on that node (block 4; block 5 is never reached) -/
+def evMine4 : List Ev :=
+  [ .s "block_number_to_block" 4 "0000000000000004" (some "b4"),
+    .s "block_number_to_raw_block" 4 "0000000000000004" (some "r4"),
+    .s "block_number_to_hash" 4 "0000000000000004" (some (generatedHash 4)),
+    .s "block_hash_to_number" 4 (generatedHash 4) (some (hexN 16 4)) ]
+
+theorem evMine4_own : ∀ st k v, Ev.s TId.hashToNumber.name st k v ∈ evMine4 → k = generatedHash st := by
+  intro st k v hm
+  simp [evMine4, TId.name] at hm
+  rw [hm.1, hm.2.1]
+
+/-- Non-vacuity (the situation of finding F16): a reachable node at height 3 on which the hash generated for block
+5 is in use. `mine 2` could finalise block 4 and would then clash on block 5; the pre-check answers `err "exists"`
+and, by the theorem, the node is untouched. Mining one block is accepted. -/
+example : Reach clash.1 ∧ clash.1.lbi.waiting = 0 ∧ clash.1.latestHeight = 3 ∧
+    (clash.1.mine 2 400 evMine4).2 = .err "exists" ∧ (clash.1.mine 2 400 evMine4).1 = clash.1 ∧
+    (clash.1.mine 1 400 evMine4).2 = .ok :=
+  ⟨clash_reach.reach, by decide, by decide, by decide,
+    C05.mine_error_noop clash.1 2 400 evMine4 (by decide) "exists" (by decide), by decide⟩
+
+end C05.Example
 
 end Brc20
